@@ -782,3 +782,9 @@ def post(ctx, bins):
     for v in viol:
         print("C13-CLASS %s :: %s :: op=%s -> %s" % (v["class"], v["detail"].split(": ", 1)[1], v["op"], v["implementation"]))
     return viol
+
+
+def classify(v):
+    """root-cause classes of known findings (findlib.py)"""
+    import findlib
+    return findlib.c13_class(v)
